@@ -106,7 +106,7 @@ def _cls(spelled):
 def run(tier, seed):
     tasks = PC.make_tasks(tier, seed, [], post="c04", include_noreq=False)
     results = pool.run_tasks("checks.parser_common:task", tasks)
-    results += pool.run_tasks("checks.parser_common:valid_task", PC.valid_tasks(tier, seed, [], post="c04", with_edits=False))
+    results += pool.run_tasks("checks.parser_common:valid_task", PC.valid_tasks(tier, seed, [], post="c04", with_edits=False, layouts=["upper"]))
     cov, viols, harness = PC.assemble(results)
     maxlen = 3 if tier == "quick" else 4
     maxlines = 2 if tier == "quick" else 3
